@@ -47,7 +47,7 @@ def coherent (line : String) : String :=
       let c := flatten d late
       let n := c.trans.size
       let k := ((List.range n).filter (fun i => Properties.C05.plainTrans c (Model.Tables.tr c i))).length
-      s!"coh={if Proofs.Struct.Coherent c then 1 else 0} ival={if Proofs.Interval.IntervalOK c then 1 else 0} plain={k}/{n}"
+      s!"wfdoc={if Proofs.Flatten.WFDoc d && d.kind == .scxml then 1 else 0} coh={if Proofs.Struct.Coherent c then 1 else 0} ival={if Proofs.Interval.IntervalOK c then 1 else 0} plain={k}/{n}"
     | none => "bad-chart"
   | _ => "bad-op"
 
